@@ -300,7 +300,13 @@ def run_real_md(case):
     intf = [float(x) for x in case["intf"]]
     ens = {"interfaces": tuple(intf), "tis_set": tis_set, "rgen": gen, "ens_name": "001", "mc_move": "sh",
            "start_cond": sc_tuple(case["sc"])}
-    picked = {1: {"ens": ens, "traj": old, "eng_idx": {"scripted": 0}, "exe_dir": eng.exe_dir}}
+    ens_num = 1
+    if case.get("minus"):
+        # the [0-] ensemble with λ₋₁: interfaces (λ₋₁, ·, λ0), start_cond (L, R); run_md weighs with minus=True
+        ens_num = -1
+        tis_set["lambda_minus_one"] = float(case["intf"][0])
+        intf = [float(case["intf"][2]), float(case["intf"][2]) + 2.0, float(case["intf"][2]) + 4.0]
+    picked = {ens_num: {"ens": ens, "traj": old, "eng_idx": {"scripted": 0}, "exe_dir": eng.exe_dir}}
     md = {"picked": picked, "moves": [], "mc_moves": ["sh", "sh", "sh"], "trial_len": [], "trial_op": [],
           "generated": [], "interfaces": intf, "cap": None}
     saved = tis.ENGINES
@@ -312,7 +318,7 @@ def run_real_md(case):
     info = {}
     try:
         tis.run_md(md)
-        live = picked[1]["traj"]
+        live = picked[ens_num]["traj"]
         st = md["status"]
         info.update(status=st, live=live, replaced=live is not old, old_same=snapshot(old) == before,
                     ops=[to_int(s.order[0]) for s in live.phasepoints], weights=getattr(live, "weights", None))
@@ -855,7 +861,7 @@ def wf_pick_ok(case):
     return all((c / n >= float(xi)) == (Fraction(c, n) >= xi) for c in range(1, n + 1))
 
 
-def run_real_wf_scripted(case):
+def run_real_wf_scripted(case, via_md=False):
     E = _imports()
     tis, eng = E["tis"], E["engine"]
     E["enginebase"].counter.count = -1
@@ -877,12 +883,28 @@ def run_real_wf_scripted(case):
         return orig_ext(*a, **k)
     tis.extender = ext_wrapper
     before = snapshot(old)
+    before_attrs = {k: v for k, v in old.__dict__.items() if k != "phasepoints"}
     with open(E["oldfile"], "rb") as f:
         bytes_before = f.read()
     _AUDIT.update(on=True, events=[], watch=E["oldfile"])
     res = {"status": None}
+    saved_eng = tis.ENGINES
     try:
-        acc, trial, status = tis.wire_fencing(ens, old, eng, start_cond=sc_tuple(case["sc"]))
+        if via_md:
+            # through run_md → select_shoot (start_cond = ens_set["start_cond"]); the move's return value is tapped
+            tis_set["lambda_minus_one"] = False
+            picked = {1: {"ens": ens, "traj": old, "eng_idx": {"scripted": 0}, "exe_dir": eng.exe_dir}}
+            md = {"picked": picked, "moves": [], "mc_moves": ["sh", "sh", "wf"], "trial_len": [], "trial_op": [],
+                  "generated": [], "interfaces": [float(l), float(m), float(r)],
+                  "cap": None if case["cap"] is None else float(case["cap"])}
+            tis.ENGINES = {"scripted": [eng]}
+            tis.run_md(md)
+            trial, status = picked[1]["traj"], md["status"]
+            acc = status == "ACC"
+            res["md_replaced"] = trial is not old
+            res["md"] = md
+        else:
+            acc, trial, status = tis.wire_fencing(ens, old, eng, start_cond=sc_tuple(case["sc"]))
         ops = [to_int(s.order[0]) for s in trial.phasepoints]
         after = snapshot(old)
         rewritten = after != before
@@ -907,10 +929,19 @@ def run_real_wf_scripted(case):
     finally:
         _AUDIT["on"] = False
         tis.extender = orig_ext
+        tis.ENGINES = saved_eng
         eng.plan = None
     after = snapshot(old)
     res["frames_same"] = frames_only(after) == frames_only(before)
     res["attr_changed"] = after != before and res["frames_same"]
+    # which path-level attributes changed (the recorded observation allows exactly status → 'NSG' and
+    # generated → ('wf', 9000, 0, len) on a rejected move)
+    res["attrs_ok"] = True
+    if res["attr_changed"]:
+        ok_status = old.status == "NSG" and old.generated == ("wf", 9000, 0, old.length)
+        rest = {k: v for k, v in old.__dict__.items() if k not in ("phasepoints", "status", "generated")}
+        rest_before = {k: v for k, v in before_attrs.items() if k not in ("status", "generated")}
+        res["attrs_ok"] = ok_status and repr(sorted(rest.items())) == repr(sorted(rest_before.items()))
     res["allowmax_set"] = tis_set.get("allowmaxlength") is True
     res["ran_out_ext"] = eng.ran_out_ext
     res["idx"] = list(gen.idx)
@@ -1009,6 +1040,29 @@ def wf_tie(ctx, have_model):
             ctx.distinct(("wfs", repr(sorted((a, repr(b)) for a, b in c.items()))))
         if k % 1499 == 7:
             ctx.sample({"wfs": c, "code": res["line"]})
+    # ---- the same move through run_md (start_cond argument = ens_set entry), every 3rd case
+    for k, c in enumerate(cases):
+        if k % 3 or c["sc"] != c["sce"]:
+            continue
+        res = run_real_wf_scripted(c, via_md=True)
+        ctx.count(1, branch="run_md:wf:" + str(res["status"]))
+        rep = {"wfs": c, "via": "run_md", "code": res.get("line")}
+        if res.get("exc"):
+            if not res["frames_same"] or not res["file_same"]:
+                ctx.fail("C09:run_md:old-path-changed-on-reject", f"wf raised {res['status']}: old frames/files changed", rep)
+            continue
+        if res["line"].split(" | ")[0].split()[1:3] != real[k]["line"].split(" | ")[0].split()[1:3] and not real[k].get("exc"):
+            ctx.disagree({"fn": "run_md(wf) vs wire_fencing", "wfs": c}, res["line"], real[k]["line"])
+        if res["status"] != "ACC":
+            if res["md_replaced"] or not res["frames_same"] or not res["attrs_ok"] or not res["file_same"]:
+                ctx.fail("C09:run_md:rejected-move-replaced-path" if res["md_replaced"] else "C09:run_md:old-path-changed-on-reject",
+                         f"wf status {res['status']}: replaced={res['md_replaced']} frames unchanged={res['frames_same']} "
+                         f"weights/path_number/... unchanged={res['attrs_ok']}", rep)
+        else:
+            if not res["md_replaced"] or res["trial"].weights is None or res["trial"].status != "ACC":
+                ctx.fail("C09:run_md:accepted-path-not-installed", f"wf ACC: replaced={res['md_replaced']} weights={res['trial'].weights}", rep)
+            for sig, what in wf_judge(wf_as_judged(c), res):
+                ctx.fail(sig, what, rep)
     # recorded observations (the property speaks of frames and files, which stay intact)
     ctx.hit("observation:wf-rejected-with-NSG-overwrote-old-path.status/.generated (frames+files intact)", n_rewrite)
     ctx.hit("observation:wf-set-allowmaxlength=True-on-the-shared-tis_set-dict", n_allow)
@@ -1018,6 +1072,207 @@ def wf_as_judged(c):
     d = dict(c)
     d["n_jumps"] = c["nj"]
     return d
+
+
+# --------------------------------------------------------------------------- run_md, two-ensemble moves
+def md_two_cases(ctx):
+    """zero-swap cases (format of props/c11.py): targeted leg-disagreement grid + seeded cases of C11's generators"""
+    from props import c11
+    rng = ctx.rng
+    cases = []
+    NEG = c11.NEG
+    o0 = [(1, (100, 1), False, 0), (-1, (101, 1), False, 0), (-2, (102, 1), False, 0), (1, (103, 1), False, 0)]
+    o1 = [(-1, (200, -1), False, 0), (1, (201, -1), False, 0), (2, (202, -1), False, 0), (4, (203, -1), False, 0)]
+    # QuanTIS: one-step scripts A, B cross λ0; C completes the new [0-] path, D the new [0+] path
+    c_ok = [[-2, -1, 1], [-1, 1], [-2, -2, -1, 2]]
+    c_bad = [[-1] * 12, [1], [-2, -60]]                 # BTX (never back), BTS (too short), leaves on the far left
+    d_ok = [[2, 1, -1], [2, 4], [1, 1, 2, 5]]
+    d_bad = [[1] * 12, [2] * 12, []]                       # FTX; [] with B=4 gives FTS
+    for m0 in (5, 6, 8, 9):
+        for bval in (1, 2, 4):
+            for C in c_ok + c_bad:
+                for D in d_ok + d_bad:
+                    for variant, i0, sc in (("plain", (NEG, 0, 0), (False, True)), ("lm1", (-3, -2, 0), (True, True))):
+                        scripts = [c11.mk_script([1], 300, 1, v0=2), c11.mk_script([bval], 400, 1, v0=0),
+                                   c11.mk_script(C, 500, None), c11.mk_script(D, 600, None)]
+                        cases.append({"kind": "quantis", "tag": "c09-legs", "e0": c11.ens(i0, m0, sc),
+                                      "e1": c11.ens((0, 1, 3), m0, (True, False)), "old0": o0, "old1": o1,
+                                      "scripts": scripts, "beta0": Fraction(1), "beta1": Fraction(1), "aa": True,
+                                      "xi": Fraction(1, 2)})
+    # plain RETIS swap: backward script for the new [0-] path, forward script for the new [0+] path
+    for m0 in (5, 6, 8):
+        for m1 in (5, 6, 8):
+            for Bw in c_ok + c_bad:
+                for Fw in d_ok + d_bad + [[1]]:
+                    for wf in (False, True):
+                        cases.append({"kind": "retis", "tag": "c09-legs", "e0": c11.ens((NEG, 0, 0), m0, (False, True)),
+                                      "e1": c11.ens((0, 1, 3), m1, (True, False), wf=wf), "old0": o0, "old1": o1,
+                                      "scripts": [c11.mk_script(Bw, 500, None), c11.mk_script(Fw, 600, None)],
+                                      "xi": Fraction(1, 2)})
+    nq = 1500 if ctx.quick else 12000
+    q = c11.quantis_cases(ctx)
+    for c in q[:nq]:
+        c = dict(c)
+        c["aa"] = rng.random() < 0.6
+        cases.append(c)
+    r = c11.retis_cases(ctx)
+    for c in rng.sample(r, min(len(r), 2500 if ctx.quick else 20000)):
+        cases.append(c)
+    return cases
+
+
+def run_md_two(W, c):
+    """one zero-swap case through the REAL run_md (→ select_shoot → retis/quantis_swap_zero) with C11's scripted engines"""
+    from props import c11
+    E = c11.engine_classes()
+    tis = W.tis
+    W.sweep()
+    fs, log, d = {}, [], W.dirs[0]
+    if c["kind"] == "retis":
+        eng0 = E["S"](0, fs, log, [c["scripts"][0]], d)
+        eng1 = E["S"](1, fs, log, [c["scripts"][1]], d)
+    else:
+        eng0 = E["S"](0, fs, log, [c["scripts"][0], c["scripts"][2]], d, beta=float(c["beta0"]))
+        eng1 = E["S"](1, fs, log, [c["scripts"][1], c["scripts"][3]], d, beta=float(c["beta1"]))
+    old0 = W.mk_path(fs, "old0", c["old0"])
+    old1 = W.mk_path(fs, "old1", c["old1"])
+    for k, p in enumerate((old0, old1)):
+        p.status, p.path_number, p.generated = "ACC", 11 + k, ("sh", 0.0, 1, 1)
+        p.weights = (1.0,) if k == 0 else (1.0, 1.0, 0.0)
+    rgen = c11.OneDraw(float(c["xi"]))
+    picked = W.picked(c, old0, old1, rgen)
+    e0, e1 = c["e0"], c["e1"]
+    for key, name in ((-1, "e0"), (0, "e1")):
+        picked[key]["eng_idx"] = {name: 0}
+        picked[key]["exe_dir"] = d
+        picked[key]["ens"]["tis_set"]["lambda_minus_one"] = False if e0["i"][0] == c11.NEG else float(e0["i"][0])
+        picked[key]["ens"]["tis_set"]["quantis"] = c["kind"] == "quantis"
+    md = {"picked": picked, "moves": [], "mc_moves": ["sh", "wf" if e1["wf"] else "sh", "sh", "sh"], "trial_len": [],
+          "trial_op": [], "generated": [], "interfaces": [float(x) for x in e1["i"]],
+          "cap": None if e1["cap"] is None else float(e1["cap"])}
+    olds = (old0, old1)
+    snaps = [c11.snapshot(p) for p in olds]
+    old_files = {fr.config[0] for p in olds for fr in p.phasepoints}
+    fs_before = {f: list(fs[f]) for f in old_files if f in fs}
+    saved_np, saved_eng = tis.np, tis.ENGINES
+    tis.np, tis.ENGINES = W.proxy, {"e0": [eng0], "e1": [eng1]}
+    W.proxy.exp_log.clear()
+    out = {"olds": olds}
+    # the move's own return value (status of the trials as the move left them)
+    seen = {}
+    orig = {n: getattr(tis, n) for n in ("retis_swap_zero", "quantis_swap_zero")}
+
+    def tap(name):
+        def f(*a, **k):
+            r = orig[name](*a, **k)
+            seen["ret"] = (r[0], [(t, t.status) for t in r[1]], r[2])
+            return r
+        return f
+    for n in orig:
+        setattr(tis, n, tap(n))
+    try:
+        tis.run_md(md)
+        out["status"] = md["status"]
+    except Exception as e:  # noqa: BLE001
+        out["err"] = err_kind(e)
+    finally:
+        tis.np, tis.ENGINES = saved_np, saved_eng
+        for n, fn in orig.items():
+            setattr(tis, n, fn)
+    out["ret"] = seen.get("ret")
+    out["live"] = (picked[-1]["traj"], picked[0]["traj"])
+    out["replaced"] = tuple(l is not o for l, o in zip(out["live"], olds))
+    out["diff"] = tuple(c11.snapshot_diff(snaps[k], c11.snapshot(olds[k]), fs_before if k == 0 else {}, fs, ("old[0-]", "old[0+]")[k])
+                        for k in range(2))
+    out["paths"] = tuple(W.read_path(fs, l) for l in out["live"])
+    out["md"] = md
+    return out
+
+
+def md_two_block(ctx, have_model):
+    from props import c11
+    W = c11.World()
+    try:
+        cases = md_two_cases(ctx)
+        lines, outs = [], []
+        for c in cases:
+            o = run_md_two(W, c)
+            outs.append(o)
+            if o.get("ret") is not None and "err" not in o:
+                acc, trials, st = o["ret"]
+                lines.append(f"commit2 {st} {trials[0][1] or '-'} {trials[1][1] or '-'}")
+            else:
+                lines.append(None)
+        mod = ctx.driver([l for l in lines if l is not None]) if have_model else []
+        mi = 0
+        for c, o, l in zip(cases, outs, lines):
+            rep = {"mdtwo": {k: c[k] for k in c if k != "tag"}}
+            kind = c["kind"]
+            label = o.get("err") or o["status"]
+            legs = ""
+            if o.get("ret") is not None:
+                legs = ":legs=" + "/".join(str(t[1] or "-") for t in o["ret"][1])
+            ctx.count(1, branch=f"run_md:{kind}:{label}{legs}" if label not in ("ACC",) else f"run_md:{kind}:ACC")
+            if l is not None and have_model:
+                got = f"{1 if o['replaced'][0] else 0} {1 if o['replaced'][1] else 0}"
+                if got != mod[mi]:
+                    ctx.disagree({"fn": "run_md commit (two ensembles)", "case": rep, "move_return": l}, got, mod[mi])
+                mi += 1
+            for sig, what in md_two_judge(c, o, W):
+                ctx.fail(sig, what, rep)
+            if o.get("status") == "ACC" or (o.get("ret") and any(t[1] == "ACC" for t in o["ret"][1])):
+                ctx.distinct(("mdtwo", repr(sorted((a, repr(b)) for a, b in c.items()))))
+    finally:
+        W.close()
+
+
+def md_two_judge(c, o, W=None):
+    """the C09 clauses on what run_md left in `picked` after a two-ensemble move"""
+    from props import c11
+    bad = []
+    names = ("[0-]", "[0+]")
+    status = o.get("status", o.get("err"))
+    ret = o.get("ret")
+    trial_st = None if ret is None else [t[1] for t in ret[1]]
+    if status != "ACC":
+        # rejected (or raised): both ensembles keep their old path object, unchanged in every respect
+        for k in range(2):
+            if o["replaced"][k]:
+                live = o["live"][k]
+                bad.append(("C09:run_md:rejected-move-replaced-path",
+                            f"move status {status} (trial statuses {trial_st}) but picked{names[k]}['traj'] was replaced by a "
+                            f"trial path: status={live.status!r} length={live.length} path_number={live.path_number} "
+                            f"weights={live.weights}"))
+            if o["diff"][k]:
+                bad.append(("C09:run_md:old-path-changed-on-reject", f"move status {status}: {o['diff'][k]}"))
+        if ret is not None and ret[0] is not False:
+            bad.append(("C09:run_md:accept-status-mismatch", f"accept={ret[0]!r} with status {status}"))
+        return bad
+    if not all(o["replaced"]):
+        bad.append(("C09:run_md:accepted-path-not-installed", f"status ACC, replaced={o['replaced']}"))
+        return bad
+    if ret is not None and (ret[0] is not True or any(s != "ACC" for s in trial_st)):
+        bad.append(("C09:run_md:accept-status-mismatch", f"status ACC with accept={ret[0]!r}, trial statuses {trial_st}"))
+    for k, live in enumerate(o["live"]):
+        if live.weights is None or live.status != "ACC":
+            bad.append(("C09:run_md:accepted-path-without-weights", f"{names[k]}: weights={live.weights} status={live.status!r}"))
+        if o["diff"][k]:
+            bad.append(("C09:run_md:old-path-changed", f"accepted move altered the replaced old path object: {o['diff'][k]}"))
+    md = o["md"]
+    if not (len(md["trial_len"]) == len(md["generated"]) == len(md["moves"]) == 2):
+        bad.append(("C09:run_md:bookkeeping", f"trial_len={md['trial_len']} generated={md['generated']} moves={md['moves']}"))
+    e0, e1 = c["e0"], c["e1"]
+    if c["kind"] == "retis":
+        nondry = all(len(s[1]) + 2 >= e1["maxlen"] for s in c["scripts"])
+        if e0["maxlen"] <= e1["maxlen"] and nondry and c11.ordered(e0) and c11.ordered(e1) and e0["i"][2] == e1["i"][0] \
+                and c11.valid_minus(e0, c["old0"]) and c11.valid_plus(e1, c["old1"]):
+            if not c11.valid_minus(e0, o["paths"][0]):
+                bad.append(("C09:run_md:installed-path-not-in-ensemble", f"new [0-] path {[f[0] for f in o['paths'][0]]}"))
+            if not c11.valid_plus(e1, o["paths"][1]):
+                bad.append(("C09:run_md:installed-path-not-in-ensemble", f"new [0+] path {[f[0] for f in o['paths'][1]]}"))
+            if not o["live"][0].weights[0] or (not e1["wf"] and not o["live"][1].weights[0]):
+                bad.append(("C09:run_md:zero-weight-in-own-ensemble", f"weights {o['live'][0].weights} {o['live'][1].weights}"))
+    return bad
 
 
 # --------------------------------------------------------------------------- add_to_path tie
@@ -1164,6 +1419,15 @@ def run(ctx):
                 c2 = dict(c)
                 c2["sce"] = c["sc"]
                 md_cases.append(c2)
+        # the [0-] ensemble with a λ₋₁ interface (incl. λ₋₁ = 0.0): accepted L→L / R→L / … paths must get weight ≠ 0
+        n_plus = len(md_cases)
+        for lm1 in (0, -2, 1):
+            for nb in (1, 2, 3):
+                for nf in (1, 2, 3):
+                    for sb, sf in itertools.product((-1, 1), repeat=2):
+                        md_cases.append(dict(base_case(intf=[lm1, lm1 + 2, lm1 + 4], kick=lm1 + 1, sc="LR", sce="LR", xi="1/8",
+                                                       back=[lm1 + 1] * (nb - 1) + [lm1 - 1 if sb < 0 else lm1 + 5],
+                                                       forw=[lm1 + 2] * (nf - 1) + [lm1 - 1 if sf < 0 else lm1 + 5]), minus=True))
         md_real = [run_real_md(c) for c in md_cases]
         if have_model:
             vv = "r"
@@ -1186,8 +1450,13 @@ def run(ctx):
                 if not info["replaced"]:
                     ctx.fail("C09:run_md:accepted-path-not-installed", "status ACC but the old path stays", rep)
                 w = info["weights"]
-                if set(c["sc"]) != {"L", "R"} and not (w is not None and len(w) == 3 and w[1] != 0):
+                if c.get("minus"):
+                    if not (w is not None and len(w) == 1 and w[0] != 0):
+                        ctx.fail("C09:run_md:zero-weight-in-own-ensemble", f"[0-] with λ₋₁={c['intf'][0]}: weights {w}", rep)
+                elif set(c["sc"]) != {"L", "R"} and not (w is not None and len(w) == 3 and w[1] != 0):
                     ctx.fail("C09:run_md:zero-weight-in-own-ensemble", f"weights {w}", rep)
+        # ---- run_md for the two-ensemble moves (plain and QuanTIS zero swap), incl. disagreeing legs
+        md_two_block(ctx, have_model)
         # ---- wire fencing: scripted tie against the Lean model, then free-running predicate runs
         wf_tie(ctx, have_model)
         wf_block(ctx)
@@ -1242,8 +1511,26 @@ def replay(ctx, obj):
             got = real_atp(*r["atp"])
             print("code:", got, "recorded:", r.get("code"))
             return 1 if (atp_bad(r["atp"], got) or atp_missed(r["atp"], got)) else 0
+        if "mdtwo" in r:
+            from props import c11
+            W = c11.World()
+            try:
+                c = c11._revive(r["mdtwo"]) if hasattr(c11, "_revive") else r["mdtwo"]
+                o = run_md_two(W, c)
+                bad = md_two_judge(c, o, W)
+            finally:
+                W.close()
+            print("run_md two-ensemble case:", c["kind"], "status", o.get("status", o.get("err")),
+                  "trial statuses", None if o.get("ret") is None else [t[1] for t in o["ret"][1]], "replaced", o["replaced"])
+            for sig, what in bad:
+                print("FAILS:", sig, "-", what)
+            return 1 if bad else 0
         if "wfs" in r:
-            res = run_real_wf_scripted(r["wfs"])
+            res = run_real_wf_scripted(r["wfs"], via_md=r.get("via") == "run_md")
+            if r.get("via") == "run_md" and not res.get("exc"):
+                if res["status"] != "ACC" and (res["md_replaced"] or not res["frames_same"] or not res["attrs_ok"]):
+                    print("FAILS: run_md(wf) changed/replaced the old path on", res["status"])
+                    return 1
             bad = wf_judge(wf_as_judged(r["wfs"]), res)
             print("wfs:", r["wfs"])
             print("code:", res["line"])
@@ -1273,7 +1560,10 @@ def replay(ctx, obj):
                 bad = info["replaced"] or not info["old_same"] or not info["file_same"]
             else:
                 w = info["weights"]
-                bad = (not info["replaced"]) or (set(case["sc"]) != {"L", "R"} and not (w is not None and len(w) == 3 and w[1] != 0))
+                if case.get("minus"):
+                    bad = (not info["replaced"]) or not (w is not None and len(w) == 1 and w[0] != 0)
+                else:
+                    bad = (not info["replaced"]) or (set(case["sc"]) != {"L", "R"} and not (w is not None and len(w) == 3 and w[1] != 0))
             print("FAILS" if bad else "holds")
             return 1 if bad else 0
         line, info = run_real(case)
